@@ -20,12 +20,15 @@ LEVEL_TEXT = (
     "is named _partial). Tie to the code: (1) required direction validate()==[] => ValidDoc on type-directed "
     "documents and accepted mutants; (2) on accepted documents with accepted variables and conforming data the "
     "implementation's response must have no errors and the shape the Lean specification prescribes (shapeResponse "
-    "through the driver); (3) with hostile data every error must be data-attributable."
+    "through the driver); (3) with hostile data every error must be data-attributable; (4) required direction "
+    "validate()==[] => specMergeable (Field Selection Merging on C13's own document model, Gql/Exec/ValidMerge.lean), "
+    "the static hypothesis that replaces MergeOk in soundness_partial4 / blame_partial4."
 )
 LEVEL_NOTE = (
     "Trusted: Lean kernel, the hand-written ValidDoc/Shape definitions, the harness (generator of conforming data, "
-    "conservative classification of error messages by their leading words). Field merging (C14) and schema validity "
-    "(C20) enter as hypotheses. The one run-time exception of the specification (a null variable reaching a non-null "
+    "conservative classification of error messages by their leading words). Field merging enters as the static "
+    "predicate specMergeable (evaluated through the driver on every accepted document; MergeOkT is derived from it "
+    "in Lean), schema validity (C20) as a hypothesis. The one run-time exception of the specification (a null variable reaching a non-null "
     "position that was allowed because of a default) is recognised through the driver (mayHitNullViaDefault)."
 )
 TECHNIQUE = "validator transcription + soundness theorems (staged) + direct property oracle on the implementation"
@@ -39,7 +42,9 @@ TRUSTED = [
 ]
 ASSUMPTIONS = [
     "schemas are valid (assert_valid_schema) and built from SDL; no custom scalars, is_type_of, oneOf",
-    "field merging (OverlappingFieldsCanBeMerged) is C14's subject; documents here are accepted by the full validate()",
+    "field merging: specMergeable is the specification's FieldsInSetCanMerge + SameResponseShape, except that a pair "
+    "with a __typename has no shape requirement (what the implementation and graphql-js do; C14 known finding); "
+    "interface fields are implemented with identical definitions (SoundHyps.ifaceOk)",
     "the exception the specification defers to run time is exempted when a variable with runtime value null is used",
 ]
 EXPLANATION = (
@@ -48,22 +53,46 @@ EXPLANATION = (
     "error. Theorems (Gql/Props/C13.lean): soundness_partial1 (fields/arguments/literals/abstract types), _partial2 "
     "(+ variables, allowed position incl. the default clause, run-time exception decided per position), _partial3 "
     "(+ fragments, type conditions, @skip/@include, merged keys under MergeOk; checkable instance "
-    "mergeOk_of_keyNames), blame_partial2/3 (arbitrary data: no argument/directive coercion error). Hypotheses left: "
-    "value layer (OpsSoundV, C15), schema validity (SoundHyps), field merging (MergeOk, C14)."
+    "mergeOk_of_keyNames), _partial4 / blame_partial4 (MergeOk replaced by the static rule specMergeable: "
+    "mergeOkT_of_specMergeable; the unrestricted MergeOk does not follow from validation: mergeOk_not_from_validation), "
+    "blame_partial2/3/4 (arbitrary data: no argument/directive coercion error); soundness_full / blame_full as stated "
+    "(validOp only) are refuted (soundness_full_false, blame_full_false). Hypotheses left: value layer (OpsSoundV, "
+    "C15), schema validity (SoundHyps)."
 )
 
 def make_case(seed_text):
-    """C13's own case mix: boundary variables at every depth of argument literals (65%), response
-    keys merged across fragments in exclusive / overlapping contexts (20%), C02's stream (15%)."""
+    """C13's own case mix: boundary variables at every depth of argument literals (55%), response
+    keys merged across fragments in exclusive / overlapping contexts (23%), response keys colliding
+    under object / interface / union parent types (12%), C02's stream (10%)."""
     import random
 
     rng = random.Random("mix:" + seed_text)
     r = rng.random()
-    if r < 0.6:
+    if r < 0.55:
         return c02.make_case(seed_text, profile="c13")
-    if r < 0.85:
+    if r < 0.78:
         return make_two_context_case(seed_text)
+    if r < 0.90:
+        return make_iface_context_case(seed_text)
     return c02.make_case(seed_text)
+
+
+def make_iface_context_case(seed_text):
+    import random
+
+    from tools import c13_merge_gen as M
+
+    rng = random.Random(seed_text)
+    info = M.iface_context_info()
+    sdl = G.schema_sdl(info)
+    docs = [{"text": M.gen_iface_context_document(rng), "ops": [{"name": None, "kind": "query", "vars": []}], "mutations": []}
+            for _ in range(5)]
+    reqs = []
+    for _ in range(6):
+        mode = "conforming" if rng.random() < 0.8 else "hostile"
+        data = G.gen_data(rng, info, G.T("Query", True), mode, 0, 0.08, max_depth=6)
+        reqs.append({"doc": rng.randrange(5), "op": None, "vars": {}, "data": data, "mode": mode})
+    return {"sdl": sdl, "docs": docs, "requests": reqs, "info": info, "seed": seed_text, "family": "iface_context"}
 
 
 def make_two_context_case(seed_text):
@@ -169,6 +198,19 @@ def error_kind(message):
     return "other"
 
 
+def keys_merge(text):
+    """the document text repeats a response key (rough measure of how often merging is exercised)"""
+    names = re.findall(r"(?<![$@:\w])([_A-Za-z]\w*)(?=\s*[:({\s}@])", text)
+    seen = set()
+    for n in names:
+        if n in ("query", "mutation", "fragment", "on", "true", "false", "null"):
+            continue
+        if n in seen:
+            return True
+        seen.add(n)
+    return False
+
+
 REQUEST_ATTRIBUTABLE = re.compile(r"^(Argument '|Variable '|Unknown argument|Unknown type|Cannot query field)")
 
 
@@ -216,10 +258,19 @@ def check_cases(cases, rep, driver):
             if not out.startswith("v "):
                 raise fw.InfraError(f"driver: {out[:200]}")
             bits = out.split()[1:]
+            merge_bits = bits[bits.index("m") + 1:] if "m" in bits else None
+            if merge_bits is not None:
+                bits = bits[: bits.index("m")]
             mv = bits[0] == "1"
             model_valid.append(mv)
             iv = valid[di]
+            if merge_bits is not None and any(b != "1" for b in merge_bits) and iv is False:
+                bump("merge_false_and_impl_rejects")
             rep.evaluations += 1
+            if case.get("family") == "iface_context":
+                bump("iface_context_documents")
+                if iv:
+                    bump("iface_context_accepted")
             if "...F1" in case["docs"][di]["text"] and "on Holder" in case["docs"][di]["text"]:
                 bump("two_context_documents")
                 if iv:
@@ -244,8 +295,23 @@ def check_cases(cases, rep, driver):
                         {"sdl": case["sdl"], "document": case["docs"][di]["text"]}, "accepted", out))
             elif iv and mv:
                 bump("accepted_by_both")
+                # required direction for the merge hypothesis of soundness_partial4 / blame_partial4:
+                # validate() (OverlappingFieldsCanBeMergedRule) accepts  =>  Valid.specMergeable for every operation
+                if merge_bits is not None:
+                    bump("merge_evaluated")
+                    if keys_merge(case["docs"][di]["text"]):
+                        bump("merge_documents_with_repeated_key")
+                    if any(b != "1" for b in merge_bits):
+                        rep.disagreements.append(Disagreement(
+                            "validate()==[] but specMergeable is false (required direction)",
+                            {"sdl": case["sdl"], "document": case["docs"][di]["text"]}, "accepted", out))
+                    else:
+                        bump("merge_accepted_by_both")
             elif not iv and mv:
                 bump("model_accepts_impl_rejects")
+                if merge_bits is not None and all(b == "1" for b in merge_bits):
+                    # not required to be 0: validate() has rules that reject harmless documents
+                    bump("model_with_merge_rule_accepts_impl_rejects")
             else:
                 bump("rejected_by_both")
         for m in meta:
@@ -370,6 +436,8 @@ def replay(ctx, payload) -> Report:
         rep.evaluations = 1
         if iv and not out.startswith("v 1"):
             rep.disagreements.append(Disagreement("validate()==[] but ValidDoc rejects (required direction)", inp, "accepted", out))
+        elif iv and " m" in out and "0" in out.split(" m", 1)[1]:
+            rep.disagreements.append(Disagreement("validate()==[] but specMergeable is false (required direction)", inp, "accepted", out))
         return rep
     check_cases([inp], rep, fw.Driver(DRIVER) if ctx.driver else None)
     return rep
